@@ -159,7 +159,7 @@ def handleSeq (kv : List (String × String)) (impl : String) : String × String 
       let verdict :=
         if impl == "INCONCLUSIVE" then "skip:inconclusive"
         else if let some p := illFormed then
-          s!"fail:order:a part hands out tokens that are not in order or lie outside the part (after its finish time, where the next part starts): {(toString (repr p)).take 160}"
+          s!"fail:order:a part hands out tokens that are not in order or lie outside the part (after its finish time, where the next part starts): {(((toString (repr p)).replace "\n" " ").replace "  " " ").take 160}"
         else if impl == sp then "ok"
         else if decreasing (nTimes now0 (impl.splitOn ";")) && !decreasing (nTimes now0 (sp.splitOn ";")) then
           s!"fail:order:times returned to the caller decrease; spec={sp.take 120}"
@@ -406,10 +406,12 @@ def handleBig (kv : List (String × String)) (impl : String) : String × String 
       let m := if cb then base ++ s!";CB:{cbCount obs}" else base
       let ie := impl.splitOn ";"
       let me := m.splitOn ";"
+      -- "times returned to one caller never decrease" is judged on what the implementation returned, whatever the
+      -- model predicts (the offsets of a described part are computed, not proved to lie inside the part)
       let verdict :=
-        if impl == m then "ok"
-        else if (bigDecs ie > 0 || decreasing (bigTimes now0 ie)) && !(bigDecs me > 0 || decreasing (bigTimes now0 me)) then
+        if bigDecs ie > 0 || decreasing (bigTimes now0 ie) then
           s!"fail:order:times returned to the caller decrease ({bigDecs ie} results inside the batches earlier than the result before them); impl={impl.take 200} spec={m.take 200}"
+        else if impl == m then "ok"
         else s!"fail:{firstDiffBig ie me}"
       (m, verdict)
   | _ => ("-", "fail:driver:unparsable tree")
@@ -455,8 +457,12 @@ def handleFac (kv : List (String × String)) (impl : String) : String × String 
       let per := (List.range k).map fun j => absRun (.unstarted (flat t)) (projCalls j calls)
       let sp := showFac now0 (interleaveObs calls per)
       let ie := splitList impl ";"
+      -- the offsets of a finite part were enumerated from the REAL leaf: they are part of what the code did
+      let illFormed := (flat t).find? (fun p => !p.wf)
       let verdict :=
-        if ie == sp then "ok" else
+        if let some p := illFormed then
+          s!"fail:order:a part hands out tokens that are not in order or lie outside the part (after its finish time, where the next part starts): {(((toString (repr p)).replace "\n" " ").replace "  " " ").take 160}"
+        else if ie == sp then "ok" else
         let badOrder := (List.range k).find? fun j =>
           decreasing (nTimes now0 ((ie.filter (·.startsWith s!"{j}.")).map stripIdx)) &&
           !decreasing (nTimes now0 ((sp.filter (·.startsWith s!"{j}.")).map stripIdx))
